@@ -106,7 +106,12 @@ class SpotDiagram:
         Returns:
             centroid (List): centroid for each field in the data.
         """
-        norm_index = self.optic.wavelengths.primary_index
+        # index of the primary wavelength in *this analysis's* wavelength list
+        # (which may differ from the optic's own list)
+        primary = self.optic.primary_wavelength
+        wavelengths = list(self.wavelengths)
+        norm_index = wavelengths.index(primary) if primary in wavelengths \
+            else 0
         centroid = []
         for field_data in self.data:
             centroid_x = np.mean(field_data[norm_index][0])
